@@ -129,6 +129,24 @@ def run(ctx):
                           next((k + 1 for k, o in enumerate(t0["obs"]) if o["closed"]), None), t0["obs"][-1]["pings"]),
                       {"trace": t0, "cmd": "bin/check C18 --tier %s" % ctx.tier})
 
+    # a real DTLS server (real clock) and peers whose handshake takes 0 / 300 / 450 ms of a 600 ms period, then silence
+    hout = os.path.join(ctx.work, "handshake.ndjson")
+    vf.drv(ctx, ["c18hs", hout], timeout=300)
+    hs = vf.read_ndjson(hout)
+    if not hs or not all(h["established"] for h in hs):
+        raise vf.Machinery("the DTLS handshake scenario did not establish its connections: %s" % hs)
+    hbad, gen, dist = vf.judge_records(ctx, "mon", "RecC18hs", "RecC18hs.cfg", hs, shards=1, timeout=300)
+    ctx.add("states", dist)
+    ctx.add("transitions", gen)
+    ctx.add("traces_validated_against_impl", len(hs))
+    ctx.cov["dtls_slow_handshake_runs"] = len(hs)
+    for clause, idxs in sorted(hbad.items()):
+        h0 = hs[idxs[0]]
+        vf.report(ctx, clause, {"mode": "dtlssrv", "handshakeMs": h0["handshakeMs"]},
+                  "a DTLS server with a %d ms inactivity period and a peer whose handshake took %d ms: %s" % (
+                      h0["periodMs"], h0["handshakeMs"], ("closed %d ms after the server looked up the key" % h0["afterMs"]) if h0["closed"] else "the silent peer was never closed"),
+                  {"trace": h0, "cmd": "bin/check C18 --tier %s" % ctx.tier})
+
     def mutate(t, rng):
         if not t["keepAlive"] and t["obs"] and not t["obs"][0]["closed"]:
             obs = [dict(o) for o in t["obs"]]
